@@ -1,4 +1,4 @@
-From Coq Require Import ZArith Lia List.
+From Coq Require Import ZArith Lia List Arith.
 Import ListNotations.
 Local Open Scope Z_scope.
 
@@ -65,5 +65,47 @@ Qed.
 (* every truncation point reports failure *)
 Theorem deserialize_truncated cnt stream : (length stream < cnt * wb)%nat -> snd (deserialize cnt stream) = false.
 Proof. intros H. unfold deserialize. replace (cnt * wb <=? length stream)%nat with false by (symmetry; apply Nat.leb_gt; lia). reflexivity. Qed.
+
+Lemma Forall_firstn' {A} (Pr : A -> Prop) (l : list A) k : Forall Pr l -> Forall Pr (firstn k l).
+Proof. intros H. revert k. induction H; intros [|k]; simpl; constructor; auto. Qed.
+Lemma Forall_skipn' {A} (Pr : A -> Prop) (l : list A) k : Forall Pr l -> Forall Pr (skipn k l).
+Proof. intros H. revert k. induction H; intros [|k]; simpl; auto. Qed.
+
+(* what the object holds after a short read: the bytes present overlay the old content, nothing else changes *)
+Definition overlay (old : list Z) (stream : list Z) : list Z :=
+  let ob := serialize old in chunks (length old) (firstn (length ob) stream ++ skipn (length stream) ob).
+
+Lemma chunks_app_whole ws rest cnt : Forall (fun x => 0 <= x < 256 ^ Z.of_nat wb) ws ->
+  chunks (length ws + cnt) (serialize ws ++ rest) = ws ++ chunks cnt rest.
+Proof.
+  induction 1 as [|x ws Hx Hws IH]; [reflexivity|]. cbn [serialize flat_map length chunks plus app]. rewrite <- app_assoc.
+  rewrite firstn_app, le_encode_length, Nat.sub_diag, firstn_O, app_nil_r, firstn_all2 by (rewrite le_encode_length; lia).
+  rewrite le_decode_encode by exact Hx.
+  rewrite skipn_app, le_encode_length, Nat.sub_diag, skipn_O, skipn_all2 by (rewrite le_encode_length; lia).
+  cbn [app]. f_equal. exact IH.
+Qed.
+
+(* a stream cut after k whole limbs of `ws` (plus nothing): the first k words are restored, the others keep their old value *)
+Theorem overlay_whole_limbs old ws k : length ws = length old -> (k <= length old)%nat ->
+  Forall (fun x => 0 <= x < 256 ^ Z.of_nat wb) ws -> Forall (fun x => 0 <= x < 256 ^ Z.of_nat wb) old ->
+  overlay old (serialize (firstn k ws)) = firstn k ws ++ skipn k old.
+Proof.
+  intros Hl Hk Hw Ho. unfold overlay.
+  assert (Lk : length (firstn k ws) = k) by (rewrite firstn_length; lia).
+  rewrite firstn_all2 by (rewrite !serialize_length; rewrite Lk; nia).
+  rewrite serialize_length, Lk.
+  assert (E : skipn (k * wb) (serialize old) = serialize (skipn k old)).
+  { clear - wb_pos. revert k. induction old as [|x old IH]; intros k.
+    - destruct k; cbn [serialize flat_map]; rewrite ?skipn_nil; reflexivity.
+    - destruct k as [|k]; [reflexivity|]. cbn [serialize flat_map skipn mult].
+      rewrite skipn_app, le_encode_length. replace (wb + k * wb - wb)%nat with (k * wb)%nat by lia.
+      rewrite skipn_all2 by (rewrite le_encode_length; lia). cbn [app]. apply IH. }
+  rewrite E.
+  replace (length old) with (length (firstn k ws) + length (skipn k old))%nat by (rewrite Lk, skipn_length; lia).
+  rewrite chunks_app_whole by (apply Forall_firstn'; exact Hw). f_equal.
+  rewrite <- (app_nil_r (serialize (skipn k old))). rewrite <- (Nat.add_0_r (length (skipn k old))).
+  rewrite chunks_app_whole by (apply Forall_skipn'; exact Ho). cbn [chunks]. apply app_nil_r.
+Qed.
 End Serial.
 Print Assumptions deserialize_serialize.
+Print Assumptions overlay_whole_limbs.
